@@ -38,11 +38,8 @@ pub fn judge(op: &str, args: &[RNum], out: &Outcome) -> Verdict {
         };
     }
     if op == "eqv?" {
-        if let (RNum::Inexact(a), RNum::Inexact(b)) = (args[0], args[1]) {
-            if a == 0.0 && b == 0.0 && a.to_bits() != b.to_bits() {
-                return Verdict::Excluded("eqv? of 0.0 and -0.0 (statement and R7RS differ)");
-            }
-        }
+        // 0.0 and -0.0 are numerically equal: the statement makes them eqv? (R7RS 6.1 would not;
+        // the property is the authority here and the pinned tree satisfies it)
         let want = args[0].is_exact() == args[1].is_exact() && args[0].num_eq(args[1]);
         return match out {
             Outcome::Val(Obs::Bool(b)) if *b == want => Verdict::Ok,
@@ -120,6 +117,50 @@ impl Space {
     }
 }
 
+/// calls that fail part-way (a non-number after numbers of either exactness, at every position)
+pub const POISON_ARGS: &[&str] = &["1.5 'a", "1 'a", "'a", "1/2 \"s\"", "1.5 2 'a", "'a 1.5", "2 1.5 'a 3", "1.5 (car '())", "1 2.5 (vector-ref (vector) 0)"];
+const PROBE_TEXTS: &[&str] = &["1", "2", "1.5", "1/2", "-0.0", "0.0", "16777217", "3.0", "-3", "16777216.0"];
+
+/// histories of length 2 on one interpreter and thread: every failing call of every operation,
+/// then every operation on every pair of a sub-grid; the second result must not depend on the first
+fn history_phase(sp: &Space, acc: &mut Acc) {
+    let mut it = setup_interp(&sp.g);
+    let probes: Vec<usize> = PROBE_TEXTS.iter().map(|t| sp.g.iter().position(|x| &x.text == t).unwrap_or_else(|| panic!("probe {} not in the grid", t))).collect();
+    let mut all_ops: Vec<&str> = PREDS.to_vec();
+    all_ops.extend(EXTREMA);
+    all_ops.push("eqv?");
+    for pop in &all_ops {
+        for pargs in POISON_ARGS {
+            let poison = format!("({} {})", pop, pargs);
+            for op in &all_ops {
+                for a in &probes {
+                    for b in &probes {
+                        // (whether the first call fails or short-circuits is not judged here)
+                        let _ = it.eval(&poison);
+                        let idx = vec![*a, *b];
+                        let out = it.eval(&case_text(op, &idx));
+                        let args: Vec<RNum> = idx.iter().map(|k| sp.g[*k].val).collect();
+                        acc.evals += 1;
+                        acc.count("history: failing call then probe", 1);
+                        if let Verdict::Bad(why) = judge(op, &args, &out) {
+                            acc.mismatch(
+                                Mismatch {
+                                    idx: u64::MAX - 2,
+                                    case: format!("[after {}] {}", poison, case_pretty(&sp.g, op, &idx)),
+                                    expected: why,
+                                    observed: format!("{}", out),
+                                    payload: json!({"op": op, "operands": idx.iter().map(|k| sp.g[*k].text.clone()).collect::<Vec<_>>(), "after": poison}),
+                                },
+                                None,
+                            );
+                        }
+                    }
+                }
+            }
+        }
+    }
+}
+
 pub fn run(ctx: &Ctx) -> i32 {
     let sp = Space::new(ctx.thorough());
     let total = sp.total();
@@ -155,6 +196,8 @@ pub fn run(ctx: &Ctx) -> i32 {
             }
         },
     );
+    let mut acc = acc;
+    history_phase(&sp, &mut acc);
     report::finish(
         acc,
         RunInfo {
@@ -162,7 +205,7 @@ pub fn run(ctx: &Ctx) -> i32 {
             tier: ctx.tier_name(),
             seed: ctx.seed,
             exhaustive: true,
-            rule: format!("{:?} and {:?} on all pairs and all ordered triples of G, eqv? on all pairs, |G|={} (literals and computed values of every representation); distinct = distinct (operation, outcome, exactness pattern)", PREDS, EXTREMA, sp.g.len()),
+            rule: format!("{:?} and {:?} on all pairs and all ordered triples of G, eqv? on all pairs; plus every history (failing call of any operation with a non-number operand after numbers of either exactness) x (any operation on any pair of a 10-number sub-grid) on one interpreter; |G|={} (literals and computed values of every representation); distinct = distinct (operation, outcome, exactness pattern)", PREDS, EXTREMA, sp.g.len()),
             bounds: json!({"grid": sp.g.len(), "pairs": sp.n2 + sp.ne, "triples": sp.n3}),
             assumptions: vec!["reference order: cross-multiplication on i128 rationals; exact vs inexact after conversion to binary32".into()],
             wall_s: ctx.elapsed(),
@@ -178,6 +221,9 @@ pub fn replay(p: &serde_json::Value) -> bool {
     let ops: Vec<String> = p["operands"].as_array().unwrap().iter().map(|x| x.as_str().unwrap().to_string()).collect();
     let args: Vec<RNum> = ops.iter().map(|t| g.iter().find(|x| &x.text == t).expect("grid text").val).collect();
     let text = format!("({} {})", op, ops.join(" "));
+    if let Some(poison) = p["after"].as_str() {
+        println!("{} => {}", poison, it.eval(poison));
+    }
     let out = it.eval(&text);
     println!("{} => {}", text, out);
     match judge(op, &args, &out) {
